@@ -307,3 +307,53 @@ def public_minify_total_expr(**bits):
     except Exception as e:  # noqa
         return {'violated': True, 'detail': 'minify(%r, option vector %d) raised %r' % (text, ov, e)}
     return {'violated': not G.compiles(out), 'detail': 'minify(%r) -> %r' % (text, out)}
+
+
+# --- quick-tier variants: every slot / statement template x the 32 INTERESTING child kinds (12-bit index) -----------
+def expr_roundtrip_q(b0: bool, b1: bool, b2: bool, b3: bool, b4: bool, b5: bool, b6: bool, b7: bool, b8: bool, b9: bool, b10: bool, b11: bool) -> bool:
+    """
+    post: _
+    """
+    idx = bits_index(b0, b1, b2, b3, b4, b5, b6, b7, b8, b9, b10, b11)
+    p, j = idx >> 5, idx & 31
+    if p >= N_SLOT:
+        return True
+    return untraced(_expr_roundtrip_impl, p, G.INTERESTING[j])
+
+
+def stmt_roundtrip_q(b0: bool, b1: bool, b2: bool, b3: bool, b4: bool, b5: bool, b6: bool, b7: bool, b8: bool, b9: bool, b10: bool, b11: bool) -> bool:
+    """
+    post: _
+    """
+    idx = bits_index(b0, b1, b2, b3, b4, b5, b6, b7, b8, b9, b10, b11)
+    s, j = idx >> 5, idx & 31
+    if s >= N_STMT:
+        return True
+    return untraced(_stmt_roundtrip_impl, s, G.INTERESTING[j], G.INTERESTING[(j + 7) % 32])
+
+
+def minify_total_q(b0: bool, b1: bool, b2: bool, b3: bool, b4: bool, b5: bool, b6: bool, b7: bool, b8: bool, b9: bool, b10: bool, b11: bool, b12: bool, b13: bool, b14: bool, b15: bool, b16: bool, b17: bool) -> bool:
+    """
+    post: _
+    """
+    # b0-b11 statement template x interesting child, b12-b17 option vector
+    idx = bits_index(b0, b1, b2, b3, b4, b5, b6, b7, b8, b9, b10, b11, b12, b13, b14, b15, b16, b17)
+    ov = idx >> 12
+    idx = idx & 4095
+    s, j = idx >> 5, idx & 31
+    if ov >= N_OV or s >= N_STMT:
+        return True
+    return untraced(_minify_total_impl, s, G.INTERESTING[j], ov)
+
+
+def minify_total_expr_q(b0: bool, b1: bool, b2: bool, b3: bool, b4: bool, b5: bool, b6: bool, b7: bool, b8: bool, b9: bool, b10: bool, b11: bool, b12: bool, b13: bool, b14: bool, b15: bool, b16: bool, b17: bool) -> bool:
+    """
+    post: _
+    """
+    idx = bits_index(b0, b1, b2, b3, b4, b5, b6, b7, b8, b9, b10, b11, b12, b13, b14, b15, b16, b17)
+    ov = idx >> 12
+    idx = idx & 4095
+    p, j = idx >> 5, idx & 31
+    if ov >= N_OV or p >= N_SLOT:
+        return True
+    return untraced(_minify_total_expr_impl, p, G.INTERESTING[j], ov)
